@@ -45,6 +45,9 @@ def main():
         shutil.copy(src / f"patch_{k}.diff", dest / "patch.diff")
         if (src / f"demo_{k}.py").exists():
             shutil.copy(src / f"demo_{k}.py", dest / "demo.py")
+        for helper in src.glob("*.py"):  # shared helper modules of the demos
+            if not re.match(r"demo_\d+\.py", helper.name):
+                shutil.copy(helper, dest / helper.name)
         meta = {}
         if (src / f"meta_{k}.json").exists():
             try:
@@ -69,6 +72,9 @@ def evaluate(dest, pid, checks, tier):
         # demos hard-code their author's worktree path; point them at the scratch tree
         text = re.sub(r"/tmp/mut/C\d\d", str(w), text)
         (w / ".demo.py").write_text(text)
+        for helper in dest.glob("*.py"):
+            if helper.name != "demo.py":
+                (w / helper.name).write_text(re.sub(r"/tmp/mut/C\d\d", str(w), helper.read_text()))
         clean = subprocess.run(["/venv/bin/python", str(w / ".demo.py")], env=env, capture_output=True, text=True, timeout=600, cwd=w).returncode if text else None
         ap = sh(f"cd {w} && git apply {dest / 'patch.diff'}")
         if ap.returncode != 0:
